@@ -272,7 +272,7 @@ class ModuleFinder:
                             namespace_dirs.append(abs_path)
 
         if namespace_dirs:
-            return NamespacePackage(module_name, namespace_dirs)
+            return NamespacePackage(real_module_name, namespace_dirs)
 
         raise ModuleNotFoundError(module_name)
 
